@@ -263,6 +263,24 @@ func c03Check(c *C03Case, r *core.Rec) {
 		}
 		r.Fail("swap-two-sided", "two-sided P(x1,x2)=%v, P(x2,x1)=%v", got[1].P, sw[1].P)
 	}
+	// History: calls on samples of other sizes in between leave no trace.
+	{
+		top := math.Inf(-1)
+		for _, v := range append(append([]float64{}, c.X1...), c.X2...) {
+			top = math.Max(top, v)
+		}
+		longer := append(append([]float64{}, c.X2...), top+1, top+2.5, top+0.5)
+		for ai, alt := range c01Alts {
+			stats.MannWhitneyUTest(x1, longer, alt)
+			stats.MannWhitneyUTest(longer[1:], x1, alt)
+			res, err := stats.MannWhitneyUTest(x1, x2, alt)
+			r.Trans(3)
+			if err != nil || res == nil || res.U != got[ai].U || math.Float64bits(res.P) != math.Float64bits(got[ai].P) {
+				r.Fail("sizes-alternated", "x1=%v x2=%v limits=(%d,%d) alt=%v: after calls on samples of other sizes the same call returns %+v, before %+v (err %v)", trunc(c.X1), trunc(c.X2), c.EL, c.TEL, alt, res, got[ai], err)
+				break
+			}
+		}
+	}
 	// History: the caller negates both samples in place (same slices, same lengths).
 	// Negation reverses the order of all values: U -> n1*n2 - U, the one-sided
 	// p-values change places.
